@@ -12,7 +12,7 @@ for d in sorted(os.listdir(os.path.join(V, "seeded"))):
     checks = c.get("checks", {})
     det = [f"{k} ({v['first_clause'].split(' detail=')[0].replace('clause=', '')})" for k, v in checks.items() if v.get("detected")]
     miss = [k for k, v in checks.items() if not v.get("detected")]
-    note = m.get("strengthened", "")
+    note = m.get("strengthened", "") or m.get("not_detected", "")
     rows.append((d, m.get("property", d[:3]), (m.get("summary") or "").replace("|", "/").replace("\n", " ")[:230],
                  (m.get("needs_to_manifest") or "").replace("|", "/").replace("\n", " ")[:230],
                  "yes" if c.get("verified") else "NO", "; ".join(det) or "-", ", ".join(miss) or "-", note))
@@ -27,6 +27,8 @@ own_det = 0
 for r in rows:
     lines.append("| " + " | ".join(r) + " |")
     own_det += any(x.startswith(r[1] + " ") for x in r[5].split("; "))
-lines += ["", f"{len(rows)} changes, {sum(1 for r in rows if r[4] == 'yes')} confirmed; {own_det} detected by the check of the property they attack."]
+nd = [r[0] for r in rows if r[7].startswith("NOT DETECTED")]
+lines += ["", f"{len(rows)} changes, {sum(1 for r in rows if r[4] == 'yes')} confirmed; {own_det} detected by the check of the property they attack; "
+          f"{len(nd)} not detected and explained in the note column ({', '.join(nd)})."]
 open(os.path.join(V, "SEEDED.md"), "w").write("\n".join(lines) + "\n")
 print(lines[-1])
